@@ -520,19 +520,22 @@ def llcHdr (h : Llc) : R Bytes :=
     | none => pure (a ++ c)
   | _, _, _ => .error .struct
 
-/-- `simple_tlv.pack` (lldp.py:257-261) with each class's `_pack_data` -/
+/-- each TLV class's `_pack_data` (lldp.py:347-530) -/
+def tlvData : Tlv → R Bytes
+  | .chassis st id | .port st id => do let a ← pk [.uint 1] [.num st]; pure (a ++ id)
+  | .ttl v => pk [.uint 2] [.num v]
+  | .endT => pure []
+  | .caps cap en => pk [.uint 2, .uint 2] [.num cap, .num en]
+  | .mgmt ast addr ins ifn oid => do
+    let a ← pk [.uint 1, .uint 1] [.num (addr.length + 1), .num ast]
+    let b ← pk [.uint 1, .uint 4, .uint 1] [.num ins, .num ifn, .num oid.length]
+    pure (a ++ addr ++ b ++ oid)
+  | .org oui st payload => do let a ← pk [.blob 3, .uint 1] [.raw oui, .num st]; pure (a ++ payload)
+  | .simple _ payload => pure payload
+
+/-- `simple_tlv.pack` (lldp.py:257-261) -/
 def tlvPack (t : Tlv) : R Bytes := do
-  let data ← match t with
-    | .chassis st id | .port st id => do let a ← pk [.uint 1] [.num st]; pure (a ++ id)
-    | .ttl v => pk [.uint 2] [.num v]
-    | .endT => pure []
-    | .caps cap en => pk [.uint 2, .uint 2] [.num cap, .num en]
-    | .mgmt ast addr ins ifn oid => do
-      let a ← pk [.uint 1, .uint 1] [.num (addr.length + 1), .num ast]
-      let b ← pk [.uint 1, .uint 4, .uint 1] [.num ins, .num ifn, .num oid.length]
-      pure (a ++ addr ++ b ++ oid)
-    | .org oui st payload => do let a ← pk [.blob 3, .uint 1] [.raw oui, .num st]; pure (a ++ payload)
-    | .simple _ payload => pure payload
+  let data ← tlvData t
   let hd ← pk [.uint 2] [.num ((t.type <<< 9) ||| (data.length % 512))]
   pure (hd ++ data)
 
